@@ -11,7 +11,7 @@ from typing import Dict, List, Optional, Tuple
 from sa.idioms import norm_multiset
 from sa.index import AnalysisError, ClassInfo
 from sa.models import shape_str, strip_opt
-from sa.peval import peval, weak_orderings
+from sa.peval import Unknown, peval, weak_orderings
 from sa.report import VERIF, Ctx
 from sa.sym import FALSE, NONE, NOT, Summary, conjuncts, show, subst, walk
 
@@ -235,10 +235,34 @@ class C04:
                     (clip_trig if any(x in (a, b) for x in walk(g)) else match_trig).append((g, r, s_))
             s0 = (clip_trig[0][2] if clip_trig else parts[0][1])
             atoms = {"differ": sym_cmp(("cmp", "ne", a, b))}
+            # the spelling-based comparison first; where it reports or cannot tell, the validators are decided on every ClipEvaluation
+            # of a small scope instead (and a disagreement there is reported even if the spelling looked right)
+            snap = (len(ctx.findings), len(ctx.undecided), {k: len(v) for k, v in ctx.instances.items()})
             self.truth_check("R04.2", ci, s0.qual.split(".")[-1], s0, [self._canon(g) for g, _, _ in clip_trig], atoms, lambda differ: differ,
                              "annotations.clip.uuid != predictions.clip.uuid", s0.node.lineno)
             s1 = (match_trig[0][2] if match_trig else parts[-1][1])
             self.check_matches(ci, s1, p, [(g, r) for g, r, _ in match_trig])
+            spelled_ok = len(ctx.findings) == snap[0] and len(ctx.undecided) == snap[1]
+            mres = self.clip_evaluation_models(parts)
+            msite = f"{ci.module.relpath}:{s1.node.lineno} ClipEvaluation validators"
+            if mres is not None and mres[1] is None and not spelled_ok:
+                # roll the spelling-based reports back: on all models of the scope the validators reject exactly the invalid ones
+                del ctx.findings[snap[0]:]
+                del ctx.undecided[snap[1]:]
+                for k in list(ctx.instances):
+                    del ctx.instances[k][snap[2].get(k, 0):]
+                ctx.ok("R04.2", msite, f"clips differ -> rejected ({mres[0]} small-scope models: rejected iff invalid)")
+                for name in ("duplicate targets", "duplicate sources", "targets == annotated events", "sources == predicted events"):
+                    ctx.ok("R04.2", msite, f"rejects unless {name} (decided on the small-scope models)")
+            elif mres is not None and mres[1] is not None:
+                w = mres[1]
+                ctx.bad("R04.2", ci.module.relpath, "ClipEvaluation._check_matches", "validators vs the statement on a small model",
+                        f"a clip evaluation with annotated sound events {w['annotated']}, predicted {w['predicted']}, matches (source, target) "
+                        f"{w['matches (source, target)']}{'' if w['same clip'] else ' and DIFFERENT clips'} is "
+                        f"{'rejected although it satisfies' if w['rejected'] else 'accepted although it violates'} the statement (same clip; the matches "
+                        f"mention every annotated and every predicted sound event exactly once, and nothing else)", s1.node.lineno, witness=w)
+            elif mres is not None:
+                ctx.ok("R04.2", msite, f"{mres[0]} small-scope models: rejected iff invalid")
         # (c) Match._validate_match
         mci = ctx.index.need_class(f"{DATA}.matches", "Match")
         mmv = [v for v in ctx.models.validators(mci, inherited=False) if v.kind == "model"]
@@ -246,6 +270,7 @@ class C04:
         got = self.validator(f"{DATA}.matches", "Match", "_validate_match", mmode if mmode in ("before", "after") else "after")
         if got:
             ci, s, p = got
+            snap_c = self._snap()
 
             def key(k):
                 return [("call", ("attr", p, "get"), (("const", k),), ()), ("call", ("attr", p, "get"), (("const", k), NONE), ()),
@@ -274,6 +299,17 @@ class C04:
                 self.truth_check("R04.2", ci, "_validate_match", s, trig, atoms,
                                  lambda source_is_none, target_is_none: source_is_none and target_is_none,
                                  "source is None and target is None", s.node.lineno)
+            from types import SimpleNamespace as NS_
+            if mmode == "before":
+                opts = ("absent", None, NS_(uuid=1))
+                mcases = [{k_: v_ for k_, v_ in (("source", a_), ("target", b_)) if v_ != "absent"} for a_ in opts for b_ in opts]
+                mvalid = lambda c_: c_.get("source") is not None or c_.get("target") is not None
+                mdesc = lambda c_: f"Match(**{ {k_: ('<a sound event>' if v_ is not None else None) for k_, v_ in c_.items()} })"
+            else:
+                mcases = [NS_(source=a_, target=b_, affinity=0.5, score=None) for a_ in (None, NS_(uuid=11)) for b_ in (None, NS_(uuid=1))]
+                mvalid = lambda c_: c_.source is not None or c_.target is not None
+                mdesc = lambda c_: f"a match with source {'set' if c_.source is not None else 'None'} and target {'set' if c_.target is not None else 'None'}"
+            self._settle(snap_c, got, mcases, mvalid, mdesc, "Match._validate_match", "a match has a source or a target")
         # (d) AnnotationProject._annotations_are_part_of_the_project
         got = self.validator(f"{DATA}.annotation_projects", "AnnotationProject", "_annotations_are_part_of_the_project", "after")
         if got:
@@ -281,6 +317,7 @@ class C04:
             file = ci.module.relpath
             trigs = triggers(s)
             site = f"{file}:{s.node.lineno} {ci.name}._annotations_are_part_of_the_project"
+            snap_d = self._snap()
             if len(trigs) != 1:
                 ctx.undec("R04.2", site, f"{len(trigs)} raise statements (expected 1)")
             else:
@@ -306,6 +343,17 @@ class C04:
                             f"the membership test is not `annotated_clip.clip.uuid not in {{task.clip.uuid for task in self.tasks}}` "
                             f"over every clip annotation (found: {show(g)[:100]}; loop over {show(loops[0].iter) if loops else '-'})",
                             r.lineno)
+            from types import SimpleNamespace as NS_
+            import itertools as it_
+            pcases = []
+            for nt in range(3):
+                for tk in it_.product((1, 2), repeat=nt):
+                    for na in range(3):
+                        for an in it_.product((1, 2, 3), repeat=na):
+                            pcases.append(NS_(tasks=[NS_(clip=NS_(uuid=u)) for u in tk], clip_annotations=[NS_(clip=NS_(uuid=u)) for u in an]))
+            self._settle(snap_d, got, pcases, lambda c_: all(a_.clip.uuid in {t_.clip.uuid for t_ in c_.tasks} for a_ in c_.clip_annotations),
+                         lambda c_: f"a project with tasks on clips {[t_.clip.uuid for t_ in c_.tasks]} and annotations of clips {[a_.clip.uuid for a_ in c_.clip_annotations]}",
+                         "AnnotationProject._annotations_are_part_of_the_project", "every annotated clip has a task")
         # (e) Clip._validate_times
         cci = ctx.index.need_class(f"{DATA}.clips", "Clip")
         cmv = [v for v in ctx.models.validators(cci, inherited=False) if v.kind == "model"]
@@ -462,6 +510,106 @@ class C04:
         if t and t[0] == "cmp" and t[1] == "isnot" and ("cmp", "is", t[2], t[3]) in atoms.values():
             return ("not", ("cmp", "is", t[2], t[3]))
         return tuple(self._polar(c, atoms) for c in t)
+
+    # ------------------------------------------------------------------ small-scope models of the relational validators
+    def _rejects(self, parts, obj, depth=0):
+        """does some raise of the validators fire for the model object?  Calls of other methods of the class on the instance
+        (`self._check_clips_match()`) are followed.  (sa/meval.py; Unknown propagates)"""
+        from sa.meval import fires
+        for ci_, s_, p_ in parts:
+            for e in s_.events:
+                if e.kind == "raise":
+                    if e.handlers or e.in_handler:
+                        raise Unknown("raise inside a try statement")
+                    if fires(s_, e, {p_: obj}):
+                        return True
+                elif e.kind == "call" and e.term[0] == "call" and e.term[1][0] == "attr" and e.term[1][1] == p_ and not e.term[2] and not e.term[3] \
+                        and e.term[1][2] in ci_.methods:
+                    if depth > 3 or e.handlers or e.in_handler:
+                        raise Unknown("nested method calls")
+                    if fires(s_, e, {p_: obj}):
+                        ms = self.ctx.summ.of_method(ci_, e.term[1][2])
+                        if self._rejects([(ci_, ms, ("param", ms.params[0]))], obj, depth + 1):
+                            return True
+        return False
+
+    def clip_evaluation_models(self, parts):
+        """Every ClipEvaluation of a small scope -- up to two annotated and two predicted sound events, match lists of up to two
+        matches over those, one foreign identifier per side and None (all of them), of three matches over the known identifiers and
+        None, same / different clip -- must be rejected by the validators exactly when it violates the statement: clips differ, or
+        the targets (sources) of the matches are not the annotated (predicted) sound events, each exactly once.
+        -> None (some guard is outside the interpreted fragment), or (n models, first disagreement or None)."""
+        from types import SimpleNamespace as NS
+        import itertools as it
+
+        def ev(u):
+            return None if u is None else NS(uuid=u)
+
+        def model(A, P, ms, same_clip=True):
+            return NS(annotations=NS(clip=NS(uuid=100), sound_events=[ev(u) for u in A]),
+                      predictions=NS(clip=NS(uuid=100 if same_clip else 200), sound_events=[ev(u) for u in P]),
+                      matches=[NS(source=ev(s_), target=ev(t_), affinity=0.5, score=None) for s_, t_ in ms])
+
+        def valid(A, P, ms, same_clip):
+            ts = sorted(t_ for _, t_ in ms if t_ is not None)
+            ss = sorted(s_ for s_, _ in ms if s_ is not None)
+            return same_clip and ts == sorted(A) and ss == sorted(P)
+
+        wide = [(s_, t_) for s_ in (None, 11, 12, 13) for t_ in (None, 1, 2, 3) if not (s_ is None and t_ is None)]
+        narrow = [(s_, t_) for s_ in (None, 11, 12) for t_ in (None, 1, 2) if not (s_ is None and t_ is None)]
+        cases = []
+        for A in ([], [1], [1, 2]):
+            for P in ([], [11], [11, 12]):
+                for n in range(3):
+                    for ms in it.product(wide, repeat=n):
+                        cases.append((A, P, list(ms), True))
+        for ms in it.product(narrow, repeat=3):
+            cases.append(([1, 2], [11, 12], list(ms), True))
+        for A, P, ms in (([], [], []), ([1], [11], [(11, 1)]), ([1, 2], [11], [(11, 1), (None, 2)])):
+            cases.append((A, P, ms, False))
+        n = 0
+        try:
+            for A, P, ms, same in cases:
+                rej = self._rejects(parts, model(A, P, ms, same))
+                n += 1
+                if rej == valid(A, P, ms, same):
+                    return n, {"annotated": A, "predicted": P, "matches (source, target)": ms, "same clip": same, "rejected": rej}
+        except Unknown:
+            return None
+        return n, None
+
+    def _snap(self):
+        ctx = self.ctx
+        return (len(ctx.findings), len(ctx.undecided), {k: len(v) for k, v in ctx.instances.items()})
+
+    def _settle(self, snap, part, cases, valid, describe, func, what):
+        """After the spelling-based comparison of one validator: decide it on the small-scope models as well.  Models agree with the
+        statement everywhere -> the spelling-based reports (if any) are withdrawn; a model disagrees -> reported with the model."""
+        ctx = self.ctx
+        ci, s, p = part
+        spelled_ok = len(ctx.findings) == snap[0] and len(ctx.undecided) == snap[1]
+        n, witness = 0, None
+        try:
+            for c in cases:
+                rej = self._rejects([part], c)
+                n += 1
+                if rej == valid(c):
+                    witness = (c, rej)
+                    break
+        except Unknown:
+            return
+        site = f"{ci.module.relpath}:{s.node.lineno} {func}"
+        if witness is None and not spelled_ok:
+            del ctx.findings[snap[0]:]
+            del ctx.undecided[snap[1]:]
+            for k in list(ctx.instances):
+                del ctx.instances[k][snap[2].get(k, 0):]
+            ctx.ok("R04.2", site, f"{what} ({n} small-scope models: rejected iff invalid)")
+        elif witness is not None:
+            c, rej = witness
+            ctx.bad("R04.2", ci.module.relpath, func, "validator vs the statement on a small model",
+                    f"{describe(c)} is {'rejected although it satisfies' if rej else 'accepted although it violates'} the statement ({what})",
+                    s.node.lineno, witness={"model": describe(c), "rejected": rej})
 
     def _match_fallback(self, ci, s, p, trig):
         self.ctx.bad("R04.2", ci.module.relpath, "Match._validate_match", "raise iff source is None and target is None",
